@@ -316,9 +316,8 @@ def populate_unwind(ctx, sk, cfi):
     sk.add('read::cfi', cfi.item(r'^pub enum RegisterRule<').clean(rejrec=['T']))
     sk.add('read::cfi', core.rd('specs/cfi_unwind.rs'), label='cfa_step')
     sk.add('read::cfi', cfi.item(r'^pub trait UnwindContextStorage<').clean())
-    sk.add('read::cfi', cfi.item(r'^const MAX_RULES').clean())
-    sk.add('read::cfi', cfi.item(r'^const MAX_UNWIND_STACK_DEPTH').clean())
-    sk.add('read::cfi', cfi.item(r'^impl<T: ReaderOffset> UnwindContextStorage<T> for StoreOnHeap').clean())
+    # `impl UnwindContextStorage for StoreOnHeap` is not emitted: Verus rejects the (benign) cycle impl -> associated type ->
+    # UnwindTableRow<T, Self> -> bound on Self.  Every function below is verified for an arbitrary storage S.
 
     # ---- RegisterRuleMap: real struct over the model ArrayVec; its methods use iterator adapters / `for .. in &mut *slice`
     #      (outside Verus) -> contracts assumed (finite map with capacity), discharged by Kani K-RRMAP
@@ -426,12 +425,52 @@ def populate_unwind(ctx, sk, cfi):
     ut = cfi.item(r"^impl<'a, 'ctx, R, S> UnwindTable<'a, 'ctx, R, S>", label='UnwindTable')
     ut.keep_only(['next_row', 'into_current_row', 'evaluate'])
     ut.clean()
-    CAST = ('proof { assert(forall|x: u64| #![auto] (x as i64) as int == (if x >= 0x8000_0000_0000_0000u64 { x as int - 0x1_0000_0000_0000_0000int } else { x as int })) by (bit_vector); }')
     ut.splice('evaluate', ret='res',
               requires=['old(self).ctx.wf()', '[C01:address-size-validated] valid_address_size(old(self).address_size)'],
               ensures=evaluate_clauses(),
-              before=[('match instruction {', CAST)],
+              before=[('self.ctx.set_cfa(CfaRule::RegisterAndOffset {\n                    register,\n                    offset: offset as i64,', 'proof { lemma_u64_as_i64(offset); }'),
+                      ('*off = offset as i64;', 'proof { lemma_u64_as_i64(offset); }')],
               owners=OWN, canary=True)
+    ut.insert_members('''    // ghost accessors for the public contract of next_row
+    pub closed spec fn g_ctx(&self) -> ACtx<R::Offset> { self.ctx.abs() }
+    pub closed spec fn g_next(&self) -> u64 { self.next_start_address }
+    pub closed spec fn g_last_end(&self) -> u64 { self.last_end_address }
+    pub closed spec fn g_done(&self) -> bool { self.returned_last_row }
+    pub closed spec fn g_inp(&self) -> RView { self.instructions.inp() }
+    pub closed spec fn g_params(&self) -> (u64, i64, u8) { (self.code_alignment_factor.0, self.data_alignment_factor.0, self.address_size) }
+    pub closed spec fn g_wf(&self) -> bool {
+        self.ctx.wf() && valid_address_size(self.address_size) && self.instructions.wf()
+        && (self.returned_last_row ==> self.instructions.inp().len == 0)
+    }''')
+    G0, G1 = 'old(self)', 'final(self)'
+    ut.splice('next_row', ret='res', requires=[f'{G0}.g_wf()'], ensures=[
+        f'{G1}.g_wf()',
+        f'[C06:rows-contiguous] res matches Ok(Some(row)) ==> row.abs().start == {G0}.g_next()',
+        f'[C06:rows-contiguous] res matches Ok(Some(row)) ==> ({G1}.g_done() && !{G0}.g_done()) || row.abs().end == {G1}.g_next()',
+        f'[C06:rows-nondecreasing] {G1}.g_next() >= {G0}.g_next()',
+        f'[C06:last-row-ends-at-fde-end] res matches Ok(Some(row)) ==> ({G1}.g_done() && !{G0}.g_done() ==> row.abs().end == {G0}.g_last_end() && {G0}.g_inp().len == 0 && {G1}.g_next() == {G0}.g_next())',
+        f'[C06:row-is-current] res matches Ok(Some(row)) ==> row.abs() == {G1}.g_ctx().top()',
+        f'[C01:iter-done] res matches Ok(None) ==> {G0}.g_done() && {G0}.g_inp().len == 0',
+        f'[C01:iter-done] {G0}.g_done() ==> res matches Ok(None)',
+        f'[C01:iter-progress] res matches Ok(Some(row)) ==> {G1}.g_inp().len < {G0}.g_inp().len || ({G1}.g_done() && !{G0}.g_done())',
+        f'[C01:iter-progress] res is Err ==> {G1}.g_inp().len < {G0}.g_inp().len',
+        f'[C01:frame] within({G0}.g_inp(), {G1}.g_inp())',
+        f'{G1}.g_params() == {G0}.g_params() && {G1}.g_last_end() == {G0}.g_last_end() && {G1}.g_ctx().initial == {G0}.g_ctx().initial && ({G0}.g_done() ==> {G1}.g_done())'],
+        loops={0: '''invariant
+            self.ctx.wf(), valid_address_size(self.address_size), self.instructions.wf(),
+            self.returned_last_row == old(self).returned_last_row, self.returned_last_row ==> self.instructions.inp().len == 0,
+            self.next_start_address == old(self).next_start_address, self.last_end_address == old(self).last_end_address,
+            self.code_alignment_factor == old(self).code_alignment_factor, self.data_alignment_factor == old(self).data_alignment_factor,
+            self.address_size == old(self).address_size, self.ctx.abs().initial == old(self).ctx.abs().initial,
+            self.ctx.abs().top().start == old(self).next_start_address,
+            within(old(self).instructions.inp(), self.instructions.inp()),
+        decreases self.instructions.inp().len'''},
+        owners=OWN, canary=True)
+    ut.splice('into_current_row', ret='res', requires=['self.g_wf()'], ensures=['res matches Some(row) ==> row.abs() == self.g_ctx().top()'], owners=OWN)
+    FO = 'let offset = Wrapping(factored_offset as i64) * self.data_alignment_factor;'
+    HINT = 'proof { lemma_u64_as_i64(factored_offset); lemma_wrap_mul_reinterpret(factored_offset, self.data_alignment_factor.0); }\n                '
+    ut.insert_before(FO, HINT, nth=1)
+    ut.insert_before(FO, HINT, nth=0)
     sk.add('read::cfi', ut)
 
 
